@@ -631,7 +631,8 @@ class AnnealResults(list):
 
         """
         if isinstance(other, AnnealResults):
-            if other.best < self.best:
+            if other.best is not None and (
+                    self.best is None or other.best < self.best):
                 self.best = other.best
             return super().__iadd__(other)
 
@@ -650,7 +651,8 @@ class AnnealResults(list):
 
         """
         if isinstance(other, AnnealResults):
-            if other.best < self.best:
+            if other.best is not None and (
+                    self.best is None or other.best < self.best):
                 self.best = other.best
             super().extend(other)
         else:
